@@ -139,6 +139,7 @@ type Interp struct {
 	pendingEnd   *pathEnd
 	pendingCrash interface{}
 	nowOverride  *Term
+	fs           *vfsState
 }
 
 type Stats struct {
